@@ -110,6 +110,11 @@ def gen_reps(rng, nrep=None):
 
 def gen_case(ctx, fmt=None):
     rng = ctx.rng
+    if fmt is None and rng.random() < 0.08:
+        n = rng.randint(4, 20)
+        return {'fmt': 'fit_t0', 'seed': rng.getrandbits(24), 'n': n, 'zc': rng.choice([1, 2, n - 1, n - 2, rng.randint(1, n - 1)]) if n > 4 else rng.randint(1, n - 1),
+                'fit_range': rng.choice([1, 2, 3, 5, 5, 8]), 'dt': rng.choice([1, 2, 4]), 'slope': rng.choice([1.0, 0.3, 4.0]), 'curv': rng.choice([0.0, 0.2, 0.5]),
+                'noise': rng.choice([1e-3, 1e-4])}
     if fmt is None and rng.random() < 0.12:
         step = rng.choice([1, 1, 2, 5])
         start = rng.randint(1, 40)
@@ -118,9 +123,14 @@ def gen_case(ctx, fmt=None):
         cfgs = [start + i * step for i in range(n)]
         if not regular:
             cfgs = sorted(set(cfgs[:3] + [c + 1 for c in cfgs[3:]] + [cfgs[-1] + step + 3]))
-        return {'fmt': 'hadrons', 'seed': rng.getrandbits(24), 'cfgs': cfgs, 'step': step, 'regular': regular, 'T': rng.choice([2, 3, 5]),
-                'entry': rng.randrange(4), 'how': rng.choice(['meson', 'gammas', 'gammas', 'attrs', 'int']), 'part': rng.choice(['real', 'imag', 'complex']),
-                'sel': rng.choice(['all', 'all', 'range', 'list']), 'shuffle': rng.getrandbits(20)}
+        c_ = {'fmt': 'hadrons', 'seed': rng.getrandbits(24), 'cfgs': cfgs, 'step': step, 'regular': regular, 'T': rng.choice([2, 3, 5]),
+              'entry': rng.randrange(4), 'how': rng.choice(['meson', 'gammas', 'gammas', 'attrs', 'int']), 'part': rng.choice(['real', 'imag', 'complex']),
+              'sel': rng.choice(['all', 'all', 'range', 'list']), 'shuffle': rng.getrandbits(20)}
+        if rng.random() < 0.4:
+            # the other Hadrons readers: external legs, bilinears, t0 from the flow observables
+            nfl = rng.randint(4, 14)
+            c_.update({'what': rng.choice(['leg', 'bilinear', 't0', 't0']), 'nflow': nfl, 'zc': rng.choice([0, 1, nfl - 2, rng.randrange(nfl)]), 'fit_range': rng.choice([1, 2, 3, 5])})
+        return c_
     fmt = fmt or rng.choice(['rwms14', 'rwms16', 'rwms20', 'qtop_openqcd', 'energy', 'qtop_sfqcd', 'ms5_xsf', 'sfcf_c', 'sfcf_o', 'sfcf_a'])
     case = {'fmt': fmt, 'reps': {str(k): v for k, v in gen_reps(rng).items()}, 'shuffle': rng.getrandbits(20)}
     reps = case['reps']
@@ -132,6 +142,9 @@ def gen_case(ctx, fmt=None):
         case.update({'dn': rng.choice([1, 2, 9]), 'nn': rng.choice([2, 3, 5]), 'tmax': rng.choice([4, 6, 8]), 'eps': rng.choice([0.01, 0.02, 0.09]),
                      'L': rng.choice([4, 8, 12])})
         case['idx'] = rng.randint(0, case['nn'])       # requested flow index
+        if fmt == 'energy' and rng.random() < 0.5:
+            case['t0'] = rng.randrange(8)
+            case['t0_range'] = rng.choice([1, 2, 3, 5])
         case['off'] = rng.choice([0.0, 0.0, 0.2, -0.2, 0.45, -0.45]) if case['idx'] > 0 else rng.choice([0.0, 0.2])
     elif fmt == 'qtop_sfqcd':
         case.update({'ncs': rng.choice([2, 4, 5]), 'tmax': rng.choice([4, 6]), 'L': rng.choice([4, 8]), 'cmax': rng.choice([0.4, 0.5, 0.3])})
@@ -139,6 +152,18 @@ def gen_case(ctx, fmt=None):
         case['off'] = rng.choice([0.0, 0.0, 0.0, 0.2, -0.2, 0.45]) if case['idx'] > 0 else rng.choice([0.0, 0.2])
         if case['idx'] == case['ncs'] and case['off'] > 0:
             case['off'] = -0.2       # requests beyond cmax are refused by the reader
+        case['sector'] = rng.choice([None, 0, 1, 2])
+        if rng.random() < 0.4:
+            # the lattice of the gradient-flow coupling: T = L (tmax = L + 1 stored timeslices), L in the norm table, c = 0.3 on the grid
+            case['gf'] = True
+            case['L'] = rng.choice([4, 6, 8])
+            case['tmax'] = case['L'] + 1
+            case['ncs'], case['cmax'] = rng.choice([(3, 0.3), (5, 0.5), (4, 0.4), (6, 0.6)])
+            case['idx'] = min(case['idx'], case['ncs'])
+            if case['idx'] == case['ncs'] and case['off'] > 0:
+                case['off'] = -0.2
+            if case['idx'] == 0 and case['off'] < 0:
+                case['off'] = 0.0
     elif fmt == 'ms5_xsf':
         case.update({'tmax': rng.choice([3, 4, 6]), 'corr': rng.choice(W.PLACES_BI + W.PLACES_BB)})
     else:
@@ -312,6 +337,34 @@ def read_and_expect(ctx, case, root, info):
                     idx = select(cls[r], s0, s1, rstep)
                     exp[names[r]] = {cls[r][i]: float(np.mean(info['stored'][r][reps[r][i]][1][n * tm + xmin:n * tm + tm - xmin])) / case['L'] ** 3 for i in idx}
                 out.append(('energy density flow step %d' % n, tab(E[keys[n]]), exp))
+            if case.get('t0') is not None and case['nn'] >= 2 and rstep == 1:
+                # extract_t0: root of t^2 <E(t)> - c by the straight line through the flow times around the crossing; c is put between
+                # two stored flow times, the expectation is built from the energy densities compared above
+                kz = 1 + case['t0'] % (case['nn'] - 1) if case['nn'] > 2 else 1
+                f_ = [keys[n] ** 2 * float(E[keys[n]].value) for n in range(case['nn'] + 1)]
+                if all(f_[n] < f_[n + 1] for n in range(case['nn'])):
+                    cval = 0.5 * (f_[kz] + f_[kz + 1]) if kz + 1 <= case['nn'] else 0.5 * (f_[kz - 1] + f_[kz])
+                    fr_ = case.get('t0_range', 2)
+                    zc0_ = next(n for n in range(case['nn'] + 1) if f_[n] - cval > 0)
+                    if zc0_ - fr_ <= 0:
+                        fr_ = max(1, zc0_ - 1)      # flow time 0 carries t^2 E - c = -c without fluctuations: a fit through it is refused
+                    if zc0_ - fr_ <= 0:
+                        return out
+                    ctx.count('extract_t0')
+                    t0 = oq.extract_t0(root, 'ensA', 1, xmin, case['L'], fit_range=fr_, c=cval, **k2)
+                    zc_ = next(n for n in range(case['nn'] + 1) if f_[n] - cval > 0)
+                    lo_, hi_ = max(0, zc_ - fr_), min(case['nn'] + 1, zc_ + fr_)
+                    ref = line_root([keys[n] for n in range(lo_, hi_)], [keys[n] ** 2 * E[keys[n]] - cval for n in range(lo_, hi_)])
+                    # central value and fluctuations by configuration number (the replica means of a non-linear function of data whose
+                    # replica means differ are a second-order matter and depend on the route); the fit is iterative: minimiser precision
+                    def fl_(o):
+                        return {n_: {int(c_): float(d_) for c_, d_ in zip(o.idl[n_], o.deltas[n_])} for n_ in o.names}
+                    ta, tb = fl_(t0), fl_(ref)
+                    rel = max(abs(v) for t_ in tb.values() for v in t_.values())
+                    bad = [n_ for n_ in tb if sorted(ta.get(n_, {})) != sorted(tb[n_]) or any(abs(ta[n_][c_] - tb[n_][c_]) > 1e-5 * rel for c_ in tb[n_])]
+                    if bad or sorted(ta) != sorted(tb) or abs(float(t0.value) - float(ref.value)) > 1e-6 * abs(float(ref.value)):
+                        ta['value'], tb['value'] = {0: float(t0.value)}, {0: float(ref.value)}
+                        out.append(('extract_t0 (c=%r, fit_range %d)' % (cval, fr_), ta, tb))
         elif fmt == 'qtop_sfqcd':
             cls = {r: renumbered(reps[r]) for r in rs}
             rstart, rstop, _ = selection(case, rs, cls)
@@ -331,6 +384,27 @@ def read_and_expect(ctx, case, root, info):
                 idx = select(cls[r], s0, s1, 1)
                 exp[names[r]] = {cls[r][i]: (lambda q: float(round(q)) if ic else q)(float(sum(info['stored'][r][reps[r][i]][case['idx']][8]))) for i in idx}
             out.append(('read_qtop sfqcd c index %d' % case['idx'], tab(res), exp))
+            if case.get('sector') is not None and not ic:
+                # projection to a topological sector: 1 on the configurations whose charge rounds to the target, 0 elsewhere
+                qs_ = sorted(q for t_ in exp.values() for q in t_.values())
+                target = int(round(qs_[(case['sector'] * (len(qs_) - 1)) // 2]))
+                k3 = {k_: v_ for k_, v_ in k2.items() if k_ != 'integer_charge'}
+                sec = oq.read_qtop_sector(root, 'ensA', cc, target=target, version='sfqcd', **k3)
+                out.append(('read_qtop_sector target %d' % target, tab(sec), {n_: {c_: (1.0 if round(q) == target else 0.0) for c_, q in t_.items()} for n_, t_ in exp.items()}))
+            if case.get('gf'):
+                # gradient-flow coupling at c = 0.3: t^2 (5/3 plaquette - 1/12 rectangle) / norm(L) from the Zeuthen-flow observables 6 and 7
+                # on the middle timeslice
+                normd = {4: 0.012341170468270, 6: 0.010162691462430, 8: 0.009031614807931}
+                gi = int(round(0.3 / (case['cmax'] / case['ncs'])))
+                tt = (0.3 * case['L']) ** 2 / 8
+                k3 = {k_: v_ for k_, v_ in k2.items() if k_ != 'integer_charge'}
+                gfc = oq.read_gf_coupling(root, 'ensA', 0.3, **k3)
+                tm_ = case['tmax']
+                expg = {}
+                for r, s0, s1 in zip(rs, rstart, rstop):
+                    idx = select(cls[r], s0, s1, 1)
+                    expg[names[r]] = {cls[r][i]: tt * tt * (5 / 3 * info['stored'][r][reps[r][i]][gi][6][tm_ // 2] - 1 / 12 * info['stored'][r][reps[r][i]][gi][7][tm_ // 2]) / normd[case['L']] for i in idx}
+                out.append(('read_gf_coupling', tab(gfc), expg))
         elif fmt == 'ms5_xsf':
             k2 = dict(kw)
             want = {r: list(reps[r]) for r in rs}
@@ -489,8 +563,182 @@ def check_hadrons(ctx, case):
     return probs
 
 
+def npr_value(cfg, e, si, sj, ci, cj):
+    return complex(0.3137 + 0.0113 * cfg + 0.0171 * e + 0.0411 * si + 0.0057 * sj + 0.0023 * ci + 0.00071 * cj,
+                   0.1137 + 0.0071 * cfg * (si + 1) + 0.0037 * e + 0.0019 * sj + 0.0007 * ci + 0.00031 * cj)
+
+
+BILINEAR_NAMES = ['Gamma%d' % i for i in range(16)]
+
+
+def check_hadrons_npr(ctx, case):
+    """the other Hadrons readers: ExternalLeg / Bilinear (spin x spin x colour x colour matrices of complex numbers per
+    configuration, momenta in the attributes) and FlowObservables (t0 from the flow of an energy density)"""
+    import h5py
+    import pyerrors.input.hadrons as had
+    probs = []
+    cfgs = list(case['cfgs'])
+    root = tempfile.mkdtemp(prefix='c17n_', dir=os.environ.get('VERIF_TMP', '/dev/shm' if os.path.isdir('/dev/shm') else None))
+    ct = np.dtype([('re', '<f8'), ('im', '<f8')])
+    nfl = case['nflow']
+    times = [0.05 * (k + 1) for k in range(nfl)]
+    zc = case['zc'] % (nfl - 1) + 1
+    troot = 0.5 * (times[zc - 1] + times[zc])
+
+    def flow_val(c, k, which):
+        return 0.3 + 1.7 * (times[k] - troot) + 0.002 * math.sin(1.3 * c + 0.7 * k + which) + 0.0005 * which
+
+    try:
+        order = list(range(16))
+        _random.Random(case['seed']).shuffle(order)
+        for c in cfgs:
+            with h5py.File(os.path.join(root, 'data.%d.h5' % c), 'w') as f:
+                g = f.create_group('ExternalLeg')
+                arr = np.zeros((1, 1, 4, 4, 3, 3), dtype=ct)
+                for si, sj, ci, cj in np.ndindex(4, 4, 3, 3):
+                    v = npr_value(c, 99, si, sj, ci, cj)
+                    arr[0, 0, si, sj, ci, cj] = (v.real, v.imag)
+                g.create_dataset('corr', data=arr)
+                info = g.create_group('info')
+                info.attrs['pIn'] = np.array([b'1 2 0 3'])
+                b = f.create_group('Bilinear')
+                for slot, e in enumerate(order):
+                    sub = b.create_group('Bilinear_%d' % slot)
+                    arr = np.zeros((1, 1, 4, 4, 3, 3), dtype=ct)
+                    for si, sj, ci, cj in np.ndindex(4, 4, 3, 3):
+                        v = npr_value(c, e, si, sj, ci, cj)
+                        arr[0, 0, si, sj, ci, cj] = (v.real, v.imag)
+                    sub.create_dataset('corr', data=arr)
+                    inf = sub.create_group('info')
+                    inf.attrs['gamma'] = np.array([BILINEAR_NAMES[e].encode()])
+                    inf.attrs['pIn'] = np.array([b'1 2 0 3'])
+                    inf.attrs['pOut'] = np.array([b'0 1 1 2'])
+                fl = f.create_group('FlowObservables')
+                t_ = fl.create_group('FlowObservables_0')
+                t_.attrs['description'] = np.array([b'Flow time'])
+                t_.create_dataset('data', data=np.array(times))
+                for which, (key, desc) in enumerate([('FlowObservables_3', b'Plaquette energy density'), ('FlowObservables_7', b'Clover energy density')]):
+                    o_ = fl.create_group(key)
+                    o_.attrs['description'] = np.array([desc])
+                    o_.create_dataset('data', data=np.array([flow_val(c, k, which) for k in range(nfl)]))
+        want = cfgs
+        kw = {}
+        if case['sel'] == 'range' and case['regular']:
+            want = cfgs[1:-1]
+            kw['idl'] = range(want[0], want[-1] + 1, case['step'])
+        elif case['sel'] == 'list':
+            want = sorted(_random.Random(case['seed'] + 1).sample(cfgs, max(5, len(cfgs) - 3)))
+            kw['idl'] = list(want)
+        elif not case['regular']:
+            kw['idl'] = list(cfgs)
+        what = case['what']
+        ctx.count('hadrons-npr:%s:%s' % (what, case['sel']))
+        with warnings.catch_warnings(), quiet(), Shuffled(case['shuffle']):
+            warnings.simplefilter('ignore')
+            try:
+                if what == 'leg':
+                    res = {'leg': had.read_ExternalLeg_hd5(root, 'data', 'ensH', **kw)}
+                elif what == 'bilinear':
+                    res = had.read_Bilinear_hd5(root, 'data', 'ensH', **kw)
+                else:
+                    obsname = ['Plaquette energy density', 'Clover energy density'][case['entry'] % 2]
+                    t0 = had.extract_t0_hd5(root, 'data', 'ensH', obs=obsname, fit_range=case['fit_range'], **kw)
+            except Exception as ex:
+                return [('violation', 'reader-exception:hadrons-npr', '%s: %s' % (type(ex).__name__, str(ex)[:200]))]
+            if what == 't0':
+                which = case['entry'] % 2
+                fr = case['fit_range']
+                lo, hi = max(0, zc - fr), min(nfl, zc + fr)
+                ys_ = [pe.Obs([np.array([flow_val(c, k, which) for c in want])], ['ensH'], idl=[list(want)]) - 0.3 for k in range(lo, hi)]
+                ref = line_root(times[lo:hi], ys_)
+                if list(t0.idl['ensH']) != list(want):
+                    return [('violation', 'stored-numbers:hadrons-npr', 't0 lives on %r..., requested %r...' % (list(t0.idl['ensH'])[:5], list(want)[:5]))]
+                if abs(float(t0.value) - float(ref.value)) > 1e-6 * abs(float(ref.value)) or np.max(np.abs(np.asarray(t0.deltas['ensH']) - np.asarray(ref.deltas['ensH']))) > 1e-5 * np.max(np.abs(ref.deltas['ensH'])):
+                    return [('violation', 'stored-numbers:hadrons-npr', 'extract_t0_hd5 %s: %r vs straight line through flow times %d..%d %r' % (obsname, float(t0.value), lo, hi - 1, float(ref.value)))]
+                return probs
+        keys = ['leg'] if what == 'leg' else list(BILINEAR_NAMES)
+        if sorted(res) != sorted(keys):
+            return [('violation', 'stored-numbers:hadrons-npr', 'entries %r' % sorted(res)[:5])]
+        rr = _random.Random(case['seed'] + 2)
+        for key in (keys if what == 'leg' else rr.sample(keys, 4)):
+            e = 99 if what == 'leg' else BILINEAR_NAMES.index(key)
+            M = res[key]
+            if list(np.asarray(M.mom_in, dtype=float)) != [1.0, 2.0, 0.0, 3.0] or (what == 'bilinear' and list(np.asarray(M.mom_out, dtype=float)) != [0.0, 1.0, 1.0, 2.0]):
+                return [('violation', 'stored-numbers:hadrons-npr', 'momenta %r %r' % (M.mom_in, getattr(M, 'mom_out', None)))]
+            for _ in range(12):
+                si, sj, ci, cj = rr.randrange(4), rr.randrange(4), rr.randrange(3), rr.randrange(3)
+                z = M[si, sj, ci, cj]
+                for comp, sel_ in (('real', lambda v: v.real), ('imag', lambda v: v.imag)):
+                    exp = {'ensH': {c: sel_(npr_value(c, e, si, sj, ci, cj)) for c in want}}
+                    d = cmp_tab(tab(getattr(z, comp)), exp, 'hadrons %s %s [%d,%d,%d,%d] %s' % (what, key, si, sj, ci, cj, comp))
+                    if d:
+                        return [('violation', 'stored-numbers:hadrons-npr', d[:2])]
+    finally:
+        shutil.rmtree(root, ignore_errors=True)
+    return probs
+
+
+def line_root(xs, yo):
+    """root -a0/a1 of the weighted straight-line fit through (xs, yo), written out in Obs arithmetic (weights 1/dy^2 from the default analysis)"""
+    [o.gamma_method() for o in yo]
+    w = [1.0 / o.dvalue ** 2 for o in yo]
+    S = sum(w)
+    Sx = sum(wi * xi for wi, xi in zip(w, xs))
+    Sxx = sum(wi * xi * xi for wi, xi in zip(w, xs))
+    Sy = sum((wi * o for wi, o in zip(w[1:], yo[1:])), w[0] * yo[0])
+    Sxy = sum((wi * xi * o for wi, xi, o in zip(w[1:], xs[1:], yo[1:])), w[0] * xs[0] * yo[0])
+    det = S * Sxx - Sx * Sx
+    a0 = (Sxx * Sy - Sx * Sxy) / det
+    a1 = (S * Sxy - Sx * Sy) / det
+    return -a0 / a1
+
+
+def check_fit_t0(ctx, case):
+    """`fit_t0` (the reduction behind extract_t0 / extract_w0): the root of the straight line fitted to the `fit_range` flow times
+    on either side of the zero crossing - as many as there are when the crossing lies close to either end of the data.
+    Oracle: the weighted linear regression written out in Obs arithmetic (weights from the default analysis), root -a0/a1."""
+    from pyerrors.input.misc import fit_t0
+    probs = []
+    nprng = np.random.default_rng(case['seed'])
+    n, zc, fr = case['n'], case['zc'], case['fit_range']
+    ts = [0.05 * case['dt'] * (k + 1) for k in range(n)]
+    troot = 0.5 * (ts[zc - 1] + ts[zc]) + 0.3 * (ts[zc] - ts[zc - 1]) * (case['seed'] % 3 - 1)
+    names = ['A|r1'] if case['seed'] % 2 else ['A|r1', 'A|r2']
+    ys = {}
+    common = [nprng.normal(size=30) for _ in names]
+    for t in ts:
+        mean = case['slope'] * (t - troot) + case['curv'] * (t - troot) ** 2 * (1 if t > troot else -1)
+        ys[t] = pe.Obs([mean + case['noise'] * (0.7 * c_ + 0.7 * nprng.normal(size=30)) for c_ in common], names)
+    d = dict(ys)
+    with warnings.catch_warnings(), quiet():
+        warnings.simplefilter('ignore')
+        try:
+            res = fit_t0(d, fr)
+        except Exception as e:
+            return [('violation', 'fit_t0-exception', '%s: %s (n=%d, crossing at index %d, fit_range %d)' % (type(e).__name__, str(e)[:100], n, zc, fr))]
+        lo, hi = max(0, zc - fr), min(n, zc + fr)
+        xs = ts[lo:hi]
+        ref = line_root(xs, [ys[t] for t in xs])
+    ctx.count('fit_t0')
+    sc = max(abs(float(ref.value)), 1e-12)
+    if abs(float(res.value) - float(ref.value)) > 1e-6 * sc:
+        probs.append(('violation', 'fit_t0-root', 'n=%d flow times, crossing at index %d, fit_range %d: root %r, straight line through the points %d..%d gives %r' % (
+            n, zc, fr, float(res.value), lo, hi - 1, float(ref.value))))
+        return probs
+    for nm in ref.names:
+        da, db = np.asarray(res.deltas[nm]), np.asarray(ref.deltas[nm])
+        if da.shape != db.shape or np.max(np.abs(da - db)) > 1e-5 * max(np.max(np.abs(db)), 1e-300):
+            probs.append(('violation', 'fit_t0-fluctuations', 'chain %s' % nm))
+            break
+    return probs
+
+
 def check_case(ctx, case):
     probs = []
+    if case['fmt'] == 'fit_t0':
+        return check_fit_t0(ctx, case)
+    if case['fmt'] == 'hadrons' and case.get('what'):
+        return check_hadrons_npr(ctx, case)
     if case['fmt'] == 'hadrons':
         return check_hadrons(ctx, case)
     if case['fmt'] == 'names':
